@@ -59,7 +59,7 @@ def run(module, cfg, work, *, workers=16, simulate=None, depth=None, seed=None,
         cmd = ["java", "-XX:+UseSerialGC", "-Xms128m", "-Xmx768m", "-XX:TieredStopAtLevel=1",
                "-XX:CICompilerCount=1", "-Xshare:auto", "-cp", JAR]
     else:
-        cmd = ["java", "-XX:+UseParallelGC", f"-Xmx{heap}", "-cp", JAR]
+        cmd = ["java", "-XX:+UseParallelGC", f"-Xmx{heap}", "-Xss64m", "-cp", JAR]   # deep recursive operators (HyCompr traces)
     if tool_opts:
         cmd += tool_opts
     cmd += ["tlc2.TLC", "-workers", str(workers), "-metadir", str(d / "meta"),
